@@ -109,6 +109,12 @@ struct Interp {
         if (op == "!=") return RVal::B(a.s != b.s);
         throw Unsupported{"string operator " + op};
       }
+      // a null integer operand makes the result null (of integer type for arithmetic, boolean for relations)
+      auto int_or_null = [](const RVal& v) { return v.t == RVal::Int || (v.t == RVal::Null && (v.elem == "integer" || v.elem == "undefined")); };
+      if ((a.t == RVal::Null || b.t == RVal::Null) && int_or_null(a) && int_or_null(b)) {
+        if (op == "+" || op == "-" || op == "*" || op == "/" || op == "%") return RVal::N("integer");
+        if (op == "<" || op == "<=" || op == ">" || op == ">=" || op == "==" || op == "!=") return RVal::N("boolean");
+      }
       need(a, RVal::Int, op); need(b, RVal::Int, op);
       if (op == "+") return RVal::I(a.i + b.i);
       if (op == "-") return RVal::I(a.i - b.i);
@@ -155,7 +161,10 @@ struct Interp {
       if (e["o"].value("k", "") != "var") throw Unsupported{"set@ on a temporary"};
       std::string n = upper(e["o"]["n"].get<std::string>()); RVal& o = lookup(env, n); if (o.t != RVal::Tup) throw Unsupported{"set@ on non tuple"};
       RVal v = eval(env, e["e"]); long i = e["i"].get<long>(); RVal& tgt = lookup(env, n);
-      if (i < 1 || (size_t)i > tgt.items.size() || tgt.items[i - 1].t != v.t) throw Unsupported{"set@ type"};
+      if (i < 1 || (size_t)i > tgt.items.size()) throw Unsupported{"set@ rank"};
+      { RVal& cur = tgt.items[i - 1]; std::string ct = cur.t == RVal::Null ? cur.elem : type_name(cur);
+        if (v.t == RVal::Null) { if (v.elem != ct && v.elem != "undefined") throw Unsupported{"set@ null of another type"}; v = RVal::N(ct); }
+        else if (type_name(v) != ct) throw Unsupported{"set@ type"}; }
       tgt.items[i - 1] = v; return tgt;
     }
     if (k == "call") return call(env, e);
@@ -176,7 +185,13 @@ struct Interp {
       if (o.t != RVal::Tab) throw Unsupported{m + " on non table"}; }
     std::vector<RVal> a; for (auto& x : e["args"]) a.push_back(eval(env, x));
     RVal& o = lookup(env, n);
-    auto elem_ok = [&](const RVal& v) { if (type_name(v) != o.elem) throw Unsupported{m + ": element type differs"}; };
+    // an argument of the element type, a null (typed like the element or untyped) or - for integer tables - a decimal
+    auto coerce = [&](RVal& v) {
+      if (v.t == RVal::Null) { if (v.elem == o.elem || v.elem == "undefined" || (o.elem == "integer" && v.elem == "decimal")) { v = RVal::N(o.elem); return; } throw Unsupported{m + ": null of another type"}; }
+      if (o.elem == "integer" && v.t == RVal::Dec) { v = RVal::I((long long)v.d); return; }
+      if (type_name(v) != o.elem) throw Unsupported{m + ": element type differs"};
+    };
+    auto elem_ok = [&](RVal& v) { coerce(v); };
     if (m == "concat") { elem_ok(a[0]); o.items.push_back(a[0]); return o; }
     if ((m == "put" || m == "insert" || m == "delete") && a[0].t == RVal::Null) throw RErr{22, ""};
     if (m == "put") { need(a[0], RVal::Int, "put"); if (a[0].i < 0 || (size_t)a[0].i >= o.items.size()) throw RErr{22, ""}; elem_ok(a[1]); o.items[a[0].i] = a[1]; return o; }
@@ -207,12 +222,12 @@ struct Interp {
   Flow stmt(Env& env, const json& s) {
     step();
     const std::string k = s.value("k", "");
-    if (k == "nop" || k == "import") return NORMAL;
-    if (k == "let") { RVal v = eval(env, s["e"]); std::string n = upper(s["n"].get<std::string>()); if (v.t == RVal::Null) throw Unsupported{"assignment of null"}; assign(env, n, v); return NORMAL; }
+    if (k == "nop" || k == "import" || k == "may_be_rejected") return NORMAL;
+    if (k == "let") { RVal v = eval(env, s["e"]); std::string n = upper(s["n"].get<std::string>()); if (v.t == RVal::Null && v.elem == "?") throw Unsupported{"assignment of an unset value"}; assign(env, n, v); return NORMAL; }
     if (k == "print" || k == "put") { for (auto& e : s["es"]) res.out += printable_of(eval(env, e), k == "put"); if (k == "print") res.out += "\n"; return NORMAL; }   // items reach the stream one by one
     if (k == "do") { (void)eval(env, s["e"]); return NORMAL; }
     if (k == "if") {
-      RVal c = eval(env, s["c"]); need(c, RVal::Bool, "if");
+      RVal c = eval(env, s["c"]); if (c.t == RVal::Null) c = RVal::B(false); need(c, RVal::Bool, "if");
       if (c.b) return block(env, s["then"]);
       if (s.contains("elifs")) for (auto& ei : s["elifs"]) { RVal c2 = eval(env, ei["c"]); need(c2, RVal::Bool, "elsif"); if (c2.b) return block(env, ei["body"]); }
       if (s.contains("else")) return block(env, s["else"]);
@@ -311,7 +326,7 @@ std::string rval_dump(const RVal& v) {
   case RVal::Dec: snprintf(buf, sizeof buf, "N:%.17g", v.d); return buf;
   case RVal::Obj: return "O:vf";
   case RVal::Tab: { std::string s = "[[" + v.elem + "]|"; for (size_t i = 0; i < v.items.size(); ++i) { if (i) s += ","; s += rval_dump(v.items[i]); } return s + "]"; }
-  case RVal::Tup: { std::string s = "T{"; for (size_t i = 0; i < v.items.size(); ++i) { if (i) s += ","; s += v.items[i].t == RVal::Int ? "integer" : v.items[i].t == RVal::Str ? "string" : v.items[i].t == RVal::Bool ? "boolean" : "?"; } s += "}("; for (size_t i = 0; i < v.items.size(); ++i) { if (i) s += ","; s += rval_dump(v.items[i]); } return s + ")"; }
+  case RVal::Tup: { std::string s = "T{"; for (size_t i = 0; i < v.items.size(); ++i) { if (i) s += ","; s += v.items[i].t == RVal::Int ? "integer" : v.items[i].t == RVal::Str ? "string" : v.items[i].t == RVal::Bool ? "boolean" : v.items[i].t == RVal::Null ? v.items[i].elem : "?"; } s += "}("; for (size_t i = 0; i < v.items.size(); ++i) { if (i) s += ","; s += rval_dump(v.items[i]); } return s + ")"; }
   }
   return "?";
 }
@@ -319,8 +334,11 @@ std::string rval_dump(const RVal& v) {
 RResult ref_run_units(const std::vector<std::vector<json>>& units, const RConfig& cfg) {
   RResult res; Interp in(cfg, res); Env root;
   // one outcome per unit, joined by '|': the host reports an error and goes on with the next unit in the same context
-  bool first = true;
+  bool first = true; size_t unit_index = 0;
   for (auto& u : units) {
+    size_t ui = unit_index++;
+    { bool may = false; for (auto& s : u) if (s.value("k", "") == "may_be_rejected") may = true;
+      if (may && std::find(cfg.rejected_units.begin(), cfg.rejected_units.end(), ui) != cfg.rejected_units.end()) { res.outcome += (first ? "" : "|") + std::string("parse_error"); first = false; continue; } }
     std::string oc = "ok";
     if (!res.unsupported) {
       try {
